@@ -12,7 +12,7 @@ import (
 func init() {
 	register(&propDef{
 		ID:       "C05",
-		Explain:  "Decided (structural necessary conditions): ONCE arm = goroutine that runs the walk and then closes the queue unconditionally, in that order; the sender ends the RPC successfully (errC <- nil) exactly when the queue reports closed, and the queue reports closed only when empty (drain-before-closed, evaluated at Len 0/1); POLL = one initial walk, then on every received trigger exactly one further walk, io.EOF ends cleanly, other errors are returned; one sync marker per walk, after the last Query/Insert, none after a failed step; the walk visitor inserts every visited leaf while no error is pending; ONCE/POLL never register with the streaming match tree; the snapshot path follows the CompletePath decision table (origin in prefix / path / both / neither); the all-targets walk does not re-acquire the cache lock. Also decided: the send timer is armed only around a Send (stopped after every Send and at every wait for the next item), so an idle POLL stream is not ended by a stale timer. Round-3 additions: wake-up token / wait set of the queue (borrowed from C11); the duplicate count is written into a clone, never into the cached notification (borrowed from C08). Round-4 additions: every subscription of the request is walked before the marker (replayed with two subscriptions, also prefix-only ones); the query descent's per-node table with two children per branch and a child literally named * (C09.query-table, borrowed). Round-6 addition: nothing but the allowed writers stores into a node's content - a delete does not nil the value of a node whose handle a pending ONCE/POLL response still holds.",
+		Explain:  "Decided (structural necessary conditions): ONCE arm = goroutine that runs the walk and then closes the queue unconditionally, in that order; the sender ends the RPC successfully (errC <- nil) exactly when the queue reports closed, and the queue reports closed only when empty (drain-before-closed, evaluated at Len 0/1); POLL = one initial walk, then on every received trigger exactly one further walk, io.EOF ends cleanly, other errors are returned; one sync marker per walk, after the last Query/Insert, none after a failed step; the walk visitor inserts every visited leaf while no error is pending; ONCE/POLL never register with the streaming match tree; the snapshot path follows the CompletePath decision table (origin in prefix / path / both / neither); the all-targets walk does not re-acquire the cache lock. Also decided: the send timer is armed only around a Send (stopped after every Send and at every wait for the next item), so an idle POLL stream is not ended by a stale timer. Round-3 additions: wake-up token / wait set of the queue (borrowed from C11); the duplicate count is written into a clone, never into the cached notification (borrowed from C08). Round-4 additions: every subscription of the request is walked before the marker (replayed with two subscriptions, also prefix-only ones); the query descent's per-node table with two children per branch and a child literally named * (C09.query-table, borrowed). Round-6 addition: nothing but the allowed writers stores into a node's content - a delete does not nil the value of a node whose handle a pending ONCE/POLL response still holds. Round-7 additions: the ToStrings index table (borrowed from C19) and the faithful-response rule (shared with C04/C07/C08) under C05's id.",
 		NotCover: "exactness of ctree.Query's matching (C09) and of the values observed during the call; concurrent writers",
 		Run:      runC05,
 	})
@@ -47,6 +47,8 @@ func runC05(c *Ctx) {
 	c.Borrow("C11", map[string]string{"C11.token": "C05.wakeup", "C11.wait-set": "C05.wait-set"}, "a lost wake-up leaves the sender asleep before the sync marker of a poll round: the poll is never answered")
 	c.Borrow("C09", map[string]string{"C09.query-table": "C05.query-table"}, "the snapshot is what ctree.Query selects: per node the query descent must reach every child a glob covers and exactly the named child otherwise, or matching leaves are missing from the ONCE/POLL answer")
 	contentWriters(c, "C05.handles-keep-value")
+	c.Borrow("C19", map[string]string{"C19.prefix": "C05.path-index"}, "the snapshot query is keyed by path.ToStrings of the request's prefix and path: an index that differs from the one the cache filed the leaves under (key values, element order, which of the two encodings wins) selects nothing, and the ONCE/POLL answer is an empty snapshot")
+	respFaithful(c, "C05.resp-faithful")
 	c.Borrow("C08", map[string]string{"C08.dup-clone": "C05.dup-clone"}, "a duplicate count written into the cached notification is returned by every later ONCE/POLL as a value no writer stored")
 	c.Rule("C05.once", "ONCE: Subscribe starts exactly one goroutine whose body is processSubscription followed unconditionally by queue.Close(), plus the sender; no registration with the match tree. sendStreamingResults: queue closed => errC <- nil and return without another Send")
 	c.Rule("C05.drain", "coalesce.Next never reports closed while items are pending (closed arm with Len()==1 retries next())")
@@ -390,6 +392,13 @@ func completePathTable(c *Ctx, rule string) {
 						return "OANY"
 					}
 				}
+				// cmp.Or(oPre, oPath) != "": by its contract the first non-zero argument - set iff one of the origins is
+				if oc, ok := x.V.(*ssa.Call); ok && isCmpOrOfOrigins(e, st, RV{x.F, oc}) {
+					if v.Op == token.EQL {
+						return "!OANY"
+					}
+					return "OANY"
+				}
 				if call, ok := x.V.(*ssa.Call); ok && calleeName(&call.Call) == "(*proto/gnmi.Path).GetOrigin" {
 					name := ""
 					if call.Call.Args[0] == prefixP {
@@ -440,6 +449,18 @@ func completePathTable(c *Ctx, rule string) {
 				// a one-element literal holding an origin
 				s := "elem(" + Expr(a) + ")"
 				if els := ev.Elems[1]; len(els) == 1 {
+					// cmp.Or(prefix origin, path origin): the first of the two that is set
+					if oc, ok := els[0].V.(*ssa.Call); ok && isCmpOrOfOrigins(nil, nil, RV{els[0].F, oc}) {
+						fromPrefixFirst := cmpOrFirstIs(oc, prefixP)
+						switch {
+						case opre && fromPrefixFirst, opre && !opath:
+							s = "prefix-origin"
+						case opath:
+							s = "path-origin"
+						}
+						parts = append(parts, s)
+						continue
+					}
 					// the element as resolved on this path (a variable assigned from either origin)
 					if call, ok := els[0].V.(*ssa.Call); ok && calleeName(&call.Call) == "(*proto/gnmi.Path).GetOrigin" {
 						if call.Call.Args[0] == prefixP {
@@ -514,6 +535,17 @@ func completePathTable(c *Ctx, rule string) {
 				continue
 			}
 			got := describe(p, sc.opre, sc.opath, sc.plen)
+			// what is returned is the accumulated slice itself: the result of the last append on the path,
+			// not something computed from it (filtered, re-sliced, converted)
+			var lastApp ssa.Value
+			for j := range p.Trace {
+				if p.Trace[j].Label == "builtin:append" {
+					lastApp, _ = p.Trace[j].In.(ssa.Value)
+				}
+			}
+			if lastApp != nil && p.Rets[0].V != lastApp {
+				got += " then " + retClass(p.Rets[0])
+			}
 			c.Check(rc == "nil" && got == sc.want, rule, fnName(cp), sc.name, P.Pos(cp.Pos()), fmt.Sprintf("result = %s (want %s), error %s", got, sc.want, rc))
 		}
 		c.Check(len(e.Paths) == 1, rule, fnName(cp), sc.name+" (decided)", P.Pos(cp.Pos()), fmt.Sprintf("%d paths (1 = every condition folded)", len(e.Paths)))
@@ -521,4 +553,36 @@ func completePathTable(c *Ctx, rule string) {
 	// fresh result
 	au := NewAliasAudit(P)
 	c.Check(au.returnsFresh(cp), rule, fnName(cp), "result is built on a fresh slice (not aliased with an argument)", P.Pos(cp.Pos()), "")
+}
+
+// isCmpOrOfOrigins: v is cmp.Or(x.GetOrigin(), y.GetOrigin()) (the variadic arguments of the generic instance).
+func isCmpOrOfOrigins(e *PPA, st *State, rv RV) bool {
+	call, ok := rv.V.(*ssa.Call)
+	if !ok {
+		return false
+	}
+	g := staticCallee(&call.Call)
+	if g == nil || pkgPathOf(g) != "cmp" || !strings.HasPrefix(g.Name(), "Or") || len(call.Call.Args) != 1 {
+		return false
+	}
+	els, ok := literalElems(call.Call.Args[0])
+	if !ok || len(els) != 2 {
+		return false
+	}
+	for _, el := range els {
+		if !isCallNamed(unwrap(el), "(*proto/gnmi.Path).GetOrigin") {
+			return false
+		}
+	}
+	return true
+}
+
+// cmpOrFirstIs: the first argument of cmp.Or(...) is GetOrigin() of p.
+func cmpOrFirstIs(call *ssa.Call, p ssa.Value) bool {
+	els, ok := literalElems(call.Call.Args[0])
+	if !ok || len(els) == 0 {
+		return false
+	}
+	c0, ok := unwrap(els[0]).(*ssa.Call)
+	return ok && len(c0.Call.Args) == 1 && c0.Call.Args[0] == p
 }
